@@ -31,13 +31,15 @@ MANIFEST = dict(
         "preserves well-formedness, non-empty batches and the multiset of (input,label) pairs; in every reachable state the access paths agree. "
         "(F) repartitionByClass, whenever it succeeds (any label multiset incl. absent classes), yields a permutation of the pairs gathered class by "
         "class with ascending labels; binarySubProblem returns exactly the first run of batches of the smaller class followed by the next run of the "
-        "bigger class (on class-sorted batches: all batches of the two classes) relabelled [l = oneClass], and throws iff a run is missing; "
+        "bigger class (on class-sorted batches: all batches of the two classes) relabelled [l = oneClass], and throws iff a run is missing; after "
+        "repartitionByClass (repaired source) every batch is non-empty, holds one class, and batch classes ascend, so binarySubProblem of it is exactly the "
+        "batches of the two classes; "
         "oneVersusRest relabels in place; DataView lists the dataset in order, subsets compose, toDataset(view) holds exactly the view's elements. "
         "The model is tied to the real Data/LabeledData/DataView code by an exact line-by-line correspondence over random operation histories (24 "
         "operation kinds incl. shuffle with the observed permutation, binarySubProblem, oneVersusRest, element-/batch-wise transform, signed iterator "
         "jumps) on unsigned, RealVector, CompressedRealVector and user-struct elements and on WeightedLabeledData under ASan/UBSan, plus an independent in-harness oracle that keeps "
         "a flat std::vector beside every dataset."),
-  note=TRUST + "covered by the correspondence and the oracle only (modelled, no theorem): push_back/subc on LabeledData, purity of the batches after repartitionByClass, "
+  note=TRUST + "covered by the correspondence and the oracle only (modelled, no theorem): push_back/subc on LabeledData, "
        "Data(size, element, batchSize) batch layout beyond its sum, shapes after transform; sharing of batches between datasets (shared_ptr) and the storage "
        "layout of sparse batches are not modelled; WeightedLabeledData is covered by the correspondence only (same model, weights checked by the oracle; "
        "ops new/repartition/splitBatch/splice/append/indexedSubset/shuffle). Findings F1, F9, F10, F13 (findings_proposed/C03.md) make the check print "
